@@ -26,7 +26,7 @@ CLAIMED.update({
    text='Theorems c09_add_flow_spec, c09_accept_in/out, c09_reject_iff, c09_step_bounded (all sixteen operations, all callers), c09_history_bounded, c09_fresh_epoch, c09_unlimited, c09_limit_gate; EPOCH_TIME regenerated and pinned to 21600; the real contract is compared step by step (status, returns, events, storage, balances) on histories with amounts around L and epoch boundaries.',
    note='Trusted: Coq kernel; hand-written model of token-manager tied by the correspondence; gen_tables.py; harness.'),
  'C10': dict(section='8/C10', technique='Coq proof (service-only, exact custody/supply effect of give/take, mint/burn gates, role transfer/proposal algebra, role frame) + differential correspondence in the Rust VM',
-   text='Theorems c10_give/take_service_only, c10_give_lock, c10_take_lock, c10_transfer_exact, c10_give_mint, c10_take_mint, c10_mint/burn_requires, c10_transfer_role, c10_accept_role (usable once), c10_*_auth, c10_roles_frame, c10_no_redeploy; correspondence over all five manager types and every caller class. Upgrade path (Model/TMUpgrade.v): c10_upgrade_spec, c10_upgrade_moves_nothing, c10_service_forever, c10_give/take_after_history_service_only, c10_token_forever_with_upgrades, c10_upgrade_nonvacuous; upgrades by the owner with arbitrary constructor arguments are part of the traces.',
+   text='Theorems c10_give/take_service_only, c10_give_lock, c10_take_lock, c10_transfer_exact, c10_give_mint, c10_take_mint, c10_mint/burn_requires, c10_transfer_role, c10_accept_role (usable once), c10_*_auth, c10_roles_frame, c10_no_redeploy; correspondence over all five manager types and every caller class. Upgrade path (Model/TMUpgrade.v): c10_upgrade_spec, c10_upgrade_moves_nothing, c10_service_forever, c10_give/take_after_history_service_only, c10_token_forever_with_upgrades, c10_upgrade_nonvacuous; upgrades by the owner with arbitrary constructor arguments are part of the traces. In the ITS world (Proofs/ItsTmGeneric.v): c10_identity_forever_in_world, c10_give/take_service_only_in_world (all 25 operation kinds), c10_in_world_nonvacuous.',
    note='Trusted: as C09; per-step custody statements (the history-level sum is their direct fold); ESDT role/frozen-account rules of the protocol are outside the model. History level (Proofs/TMCustody.v): c10_custody_step and c10_custody_history (holdings of a lock/unlock manager = initial + taken - given over every operation sequence).'),
 })
 CLAIMED.update({
